@@ -383,6 +383,19 @@ func checkCase(c Case) error {
 			if uint32(at) != c.Stored || buf == nil || !bytes.Equal(buf.Bytes(), value) {
 				return fmt.Errorf("legacy read returned attributes %#x and %d bytes, stored %#x and %d bytes", at, bufLen(buf), c.Stored, len(value))
 			}
+			// the legacy getters of the secure-boot variables carry the definition's mask: all of its bits are required
+			if getter := map[string]func() (*signature.SignatureDatabase, error){"PK": efi.GetPK, "KEK": efi.GetKEK, "db": efi.Getdb, "dbx": efi.Getdbx}[name]; c.Global && getter != nil {
+				va := uint32(efi.ValidAttributes[name])
+				_, gerr := getter()
+				if c.Stored&va != va {
+					hx.Class("read/legacy_typed_getter_with_insufficient_stored_mask")
+					if gerr == nil {
+						return fmt.Errorf("legacy getter of %s decodes a variable whose stored mask %#x lacks required attributes (%#x)", name, c.Stored, va)
+					}
+				} else if _, derr := signature.ReadSignatureDatabase(bytes.NewReader(value)); derr == nil && gerr != nil {
+					return fmt.Errorf("legacy getter of %s fails although the stored mask %#x has all required attributes and the value decodes: %v", name, c.Stored, gerr)
+				}
+			}
 		}
 	}
 	for _, e := range rec.Events() {
